@@ -155,10 +155,12 @@ Cmp(op, a, b) ==
   /\ steps' = steps + 1
   /\ Keep
 
-(* every ordered pair for <<; is and >> for equal and neighbouring ranks and against the first / last node
-   (the three operators share one implementation; this keeps the dumped graph small) *)
+(* every ordered pair for <<; >> for equal and neighbouring ranks and against the first / last node; `is` for
+   those and for EVERY pair of nodes of the same kind: identity is the node, never its value -- two text nodes,
+   attributes, comments, PIs or namespace nodes with equal content (the binding renders them equal-valued) are
+   different nodes:  $a is $b  <=>  same rank *)
 CmpAny == \E op \in {"is", "<<", ">>"}, a \in Ranks, b \in Ranks :
-             /\ op # "<<" => (b \in {a, a + 1, 1, M} \/ b + 1 = a)
+             /\ op # "<<" => (b \in {a, a + 1, 1, M} \/ b + 1 = a \/ (op = "is" /\ KindR(a) = KindR(b)))
              /\ Cmp(op, a, b)
 
 (* (A) op (B) from focus f: both operands see the SAME focus *)
